@@ -108,11 +108,31 @@ def impl_select(rng, fronts, costs, markers):
            for i, (f, c, m) in enumerate(zip(fronts, costs, markers))]
     pos = {id(o): i for i, o in enumerate(pop)}
     sel = TournamentSelector([])
+
+    class Watched(list):
+        """the population as handed to select(): remembers which positions were read by index"""
+        read = []
+
+        def __getitem__(self, k):
+            if isinstance(k, int):
+                Watched.read.append(k % len(self) if len(self) else k)
+            return list.__getitem__(self, k)
+    Watched.read = []
+    import random as _random
+    _random.seed(rng.getrandbits(48))        # draws made through other functions of `random` stay reproducible
     with Draws(rng) as d:
-        w = sel.select(list(pop))
+        w = sel.select(Watched(pop))
     cands = None
     if d.sampled:
         cands = [pos.get(id(o), -1) for o in d.sampled[-1]]
+    else:
+        # the candidates were not drawn with random.sample: they are the two positions that were read by index
+        seen = []
+        for k in Watched.read:
+            if k not in seen:
+                seen.append(k)
+        if len(seen) == 2:
+            cands = seen
     return pos.get(id(w), -1), cands
 
 
@@ -640,8 +660,12 @@ def run_select(ctx):
         if n >= 2 and cands is None:
             ctx.count("select_candidates_not_observed")
             if n > 2:
-                raise RuntimeError("TournamentSelector.select no longer draws its candidates with random.sample: "
-                                   "the candidates cannot be observed")
+                # the way the two candidates are drawn is not fixed by the property and could not be observed here:
+                # only "returns a member of the population" can be judged for this case
+                if w < 0:
+                    report_select(ctx, c, w, None, ("select-member", "the returned object is not a member of the population"))
+                    return
+                continue
             cands = [0, 1]
         if w < 0 or (n >= 2 and (len(cands) != 2 or w not in cands or cands[0] == cands[1] or min(cands) < 0)):
             cl = select_clauses(fronts, costs, markers, w, cands) or ("select-candidate", "winner %r, candidates %r" % (w, cands))
